@@ -1171,7 +1171,7 @@ class Translator(imp.Translator):
             if name == "split_ascii_whitespace" and not args:
                 return Ex(f"(Rawr.splitWs {r.text})", ("Iter", "Str"))
             if name == "trim" and not args:
-                return Ex(f"(Rawr.T.trim {r.text})", "Str")
+                return Ex(f"(Rawr.rustTrim {r.text})", "Str")
         if ctor in ("List", "Iter") and t[1] == "Chr" or t == "Str":
             if name == "nth" and len(args) == 1:
                 i = self.coerce(self.ex(args[0], c), "Nat", "nth")
